@@ -61,7 +61,6 @@ def validate(ctx, trace_files, tag, groups=32):
     prefix = "traces_%s_" % tag
     outs = [open(os.path.join(d, "%s%d.ndjson" % (prefix, g)), "w") for g in range(groups)]
     n = 0
-    lex_c = parse_c = None
     for tf in trace_files:
         with open(tf) as f:
             for line in f:
@@ -69,30 +68,13 @@ def validate(ctx, trace_files, tag, groups=32):
                     continue
                 outs[n % groups].write(line)
                 n += 1
-                if lex_c is None and '"lexed":true' in line:
-                    r = json.loads(line)
-                    if len(r["toks"]) >= 3:
-                        lex_c = r
-                if parse_c is None and '"outcome":"tree"' in line:
-                    r = json.loads(line)
-                    if any(x["outcome"] == "tree" and len(x["cm"]) >= 4 for x in r["runs"]):
-                        parse_c = r
-    if lex_c is None or parse_c is None:
-        raise MachineryFault("no record to derive canaries from")
-    lex_c["runs"] = []
-    parse_c["runs"] = [x for x in parse_c["runs"] if x["outcome"] == "tree" and len(x["cm"]) >= 4][:1]
-    parse_c["lexed"] = False
-    parse_c["toks"] = []
-    c1 = json.loads(json.dumps(lex_c)); c1["id"] = "canary-col"; c1["toks"][1]["col"] += 1
-    c2 = json.loads(json.dumps(lex_c)); c2["id"] = "canary-type"; c2["toks"][0]["type"] = ""
-    c3 = json.loads(json.dumps(parse_c)); c3["id"] = "canary-outcome"; c3["runs"][0]["outcome"] = "panic"
-    c4 = json.loads(json.dumps(parse_c)); c4["id"] = "canary-pump"
-    c4["runs"][0]["cm"][1] = "P" if c4["runs"][0]["cm"][1] == "N" else "N"
-    c5 = json.loads(json.dumps(parse_c)); c5["id"] = "canary-errtok"; c5["runs"][0]["outcome"] = "parse_error"
-    c5["runs"][0]["err"] = [{"type": "IDENT", "lit": ["q", "q"], "line": 0, "col": 0}]
-    for i, c in enumerate((c1, c2, c3, c4, c5)):
-        outs[(n + i) % groups].write(json.dumps(c) + "\n")
-    canaries = {"canary-col": lambda v: bool(v["viol"]) and not v["exact"], "canary-type": lambda v: bool(v["viol"]),
+    # The canaries are built inside the specification (C01Trace!CanaryRecsFor: a fixed source, its token stream as
+    # LexerCore yields it, the tokenizer calls PumpCore makes) - nothing the lexer / parser under test produced enters
+    # them - and an accepted canary is a deferred fault: violations found in the same run are reported first.
+    canaries = {"control": lambda v: v["exact"] and not v["viol"] and v["runs"][0]["pump"] == 0 and not v["runs"][0]["viol"],
+                "control-errtok": lambda v: not v["runs"][0]["viol"],
+                "canary-col": lambda v: bool(v["viol"]) and not v["exact"], "canary-line": lambda v: bool(v["viol"]),
+                "canary-type": lambda v: bool(v["viol"]),
                 "canary-outcome": lambda v: "outcome" in v["runs"][0]["viol"], "canary-pump": lambda v: v["runs"][0]["pump"] != 0,
                 "canary-errtok": lambda v: "errtok" in v["runs"][0]["viol"]}
     for o in outs:
@@ -109,11 +91,14 @@ def validate(ctx, trace_files, tag, groups=32):
             v = json.loads(line)
             verdicts[v["id"]] = v
             nverd += 1
-    if nverd != n + len(canaries) or len(verdicts) != nverd:
-        raise MachineryFault("C01Trace gave %d verdicts (%d distinct ids) for %d records" % (nverd, len(verdicts), n + len(canaries)))
+    ncan = sum(1 for k in verdicts if k in canaries)
+    if nverd - ncan != n or len(verdicts) != nverd:
+        raise MachineryFault("C01Trace gave %d verdicts (%d distinct ids, %d canaries) for %d records" % (nverd, len(verdicts), ncan, n))
     for cid, ok in canaries.items():
-        if not ok(verdicts[cid]):
-            raise MachineryFault("canary %s was accepted by C01Trace (validator is vacuous): %s" % (cid, verdicts[cid]))
+        if cid not in verdicts:
+            ctx.defer_fault("C01Trace printed no verdict for its canary %s" % cid)
+        elif not ok(verdicts[cid]):
+            ctx.defer_fault("canary %s was judged wrongly by C01Trace (validator is vacuous): %s" % (cid, verdicts[cid]))
     return verdicts
 
 
@@ -283,6 +268,8 @@ def run(ctx):
         gseen = set()
         for line in open(gram.beh_path):
             b = json.loads(line)
+            if "toks" not in b:
+                continue          # GrammarMC's own bookkeeping line (required operator pairs)
             k = "\x01".join(b["toks"])
             if k in gseen:
                 continue
